@@ -779,6 +779,118 @@ func runTypes(st *wstate, jobID string, from int, single bool, text string) {
 	}
 }
 
+// runs <path> <format> <f|n> <seed> <mod> <lengths,…> <max fields>: long runs. Lengths are at and just beyond
+// internal buffer sizes (512, 4096, 32 KiB scratch buffers, 64 KiB, 512 KiB).
+//   (A) a run of 00 / of ff of each length inserted at the padding-like places of the unchanged file: its end,
+//       after its first and after its last run of >= 4 zero bytes;
+//   (B) the file extended by length+16 zero bytes and each of the first <max fields> byte-aligned 16/24/32-bit
+//       leaf fields of its decode tree set to the length (big endian, little endian, syncsafe): a size field
+//       that now covers a long run of zeros (e.g. ID3v2 padding >= one 32 KiB scratch buffer).
+func runRuns(st *wstate, jobID string, from int, single bool, text string) {
+	ws := strings.Fields(text)
+	fail := func(why string) {
+		st.mu.Lock()
+		fmt.Fprintf(st.w, "C\t%s\tbadcase:%s\n", text, why)
+		st.mu.Unlock()
+	}
+	if len(ws) != 8 || (ws[3] != "f" && ws[3] != "n") {
+		fail("parse")
+		return
+	}
+	seed, e1 := strconv.ParseUint(ws[4], 10, 64)
+	mod, e2 := strconv.Atoi(ws[5])
+	maxF, e3 := strconv.Atoi(ws[7])
+	var lens []int
+	for _, l := range strings.Split(ws[6], ",") {
+		v, err := strconv.Atoi(l)
+		if err != nil || v < 1 || v > 1<<20-16 {
+			e3 = fmt.Errorf("bad length")
+		}
+		lens = append(lens, v)
+	}
+	if e1 != nil || e2 != nil || e3 != nil || mod < 1 {
+		fail("parse")
+		return
+	}
+	base, err := loadBase(ws[1])
+	if err != nil {
+		fail("read")
+		return
+	}
+	g, err := groupFor(ws[2])
+	if err != nil {
+		fail("format")
+		return
+	}
+	force := ws[3] == "f"
+	n := len(base)
+	// padding-like places
+	places := []int{n}
+	first, last := -1, -1
+	for i := 0; i+4 <= n; i++ {
+		if base[i] == 0 && base[i+1] == 0 && base[i+2] == 0 && base[i+3] == 0 {
+			j := i
+			for j < n && base[j] == 0 {
+				j++
+			}
+			if first < 0 {
+				first = j
+			}
+			last = j
+			i = j
+		}
+	}
+	for _, p := range []int{first, last} {
+		if p >= 0 && p != n && (len(places) < 2 || places[len(places)-1] != p) {
+			places = append(places, p)
+		}
+	}
+	var muts []string
+	for _, k := range []string{"z", "o"} {
+		for _, p := range places {
+			for _, l := range lens {
+				muts = append(muts, fmt.Sprintf("run%s:%d:%d", k, p, l))
+			}
+		}
+	}
+	st.begin(jobID, -1, "fields-scan "+text, single)
+	fs := leafFields(base, g, 4000)
+	st.mu.Lock()
+	st.active = false
+	st.mu.Unlock()
+	nf := 0
+	for _, f := range fs {
+		if f[0]%8 != 0 || (f[1] != 16 && f[1] != 24 && f[1] != 32) {
+			continue
+		}
+		if nf++; nf > maxF {
+			break
+		}
+		for _, l := range lens {
+			if f[1] < 32 && l >= 1<<uint(f[1]) {
+				continue
+			}
+			encs := []string{"be", "le"}
+			if f[1] == 32 {
+				encs = append(encs, "ss")
+			}
+			for _, e := range encs {
+				muts = append(muts, fmt.Sprintf("runz:%d:%d+v%d:%d:%d:%s", n, l+16, f[0], f[1], l, e))
+			}
+		}
+	}
+	idx := 0
+	for _, m := range muts {
+		if !selected(seed, mod, ws[1], ws[2], force, m) {
+			continue
+		}
+		if idx >= from {
+			runOneOfMany(st, jobID, idx, single, base, ws[1], m, ws[2], g, force, seed)
+		}
+		idx++
+	}
+}
+
 func runJob(st *wstate, jobID string, from int, single bool, text string) {
 	if strings.HasPrefix(text, "probe ") {
 		if from > 0 {
@@ -799,6 +911,10 @@ func runJob(st *wstate, jobID string, from int, single bool, text string) {
 	}
 	if strings.HasPrefix(text, "types ") {
 		runTypes(st, jobID, from, single, text)
+		return
+	}
+	if strings.HasPrefix(text, "runs ") {
+		runRuns(st, jobID, from, single, text)
 		return
 	}
 	if !strings.HasPrefix(text, "batch ") {
